@@ -105,19 +105,28 @@ def namespace(**fields):
 class FilesLoop(LoopSpec):
     """per file: either one 'Invalid' line on stderr, or the detect line (and, for inspect, the outline and a blank line)"""
 
-    def __init__(self, owner):
+    def __init__(self, owner, s3=False):
         self.o = owner
+        self.s3 = s3
 
     def iteration(self, cx, lp):
         out, err = lp.st.out, lp.st.err
         fk = lp.cur
         inspect = cx.a['inspect']
         invalid = any(t in ('except:UnknownMosFileType', 'except:MosInvalidXML', 'except:OSError') for t in lp.st.trace[len(lp.head.trace):])
-        root = parse_root(file_text(fk.t))
+        if self.s3:
+            from .classify import s3_content
+            ns = cx.st.fields(cx.a['self'])['_args']
+            content = s3_content(ns.fields['bucket_name'].t, fk.t)
+            readable = z3.BoolVal(True)
+        else:
+            content = file_text(fk.t)
+            readable = file_readable(fk.t)
+        root = parse_root(content)
         if invalid:
             ok = len(err) == 1 and out == [] and any(isinstance(p, SStr) and fk in getattr(p, 'parts', []) for p in err[0][1])
             return [('C19.a_bad_or_unreadable_file_is_reported_invalid_and_the_scan_continues',
-                     A(z3.BoolVal(ok), z3.Not(A(file_readable(fk.t), wellformed(file_text(fk.t)), self.o.classifiable(cx, root)))))]
+                     A(z3.BoolVal(ok), z3.Not(A(readable, wellformed(content), self.o.classifiable(cx, root)))))]
         if not out or out[0][0] != 'print' or err:
             return [('C19.each_classified_file_gets_its_detect_line', z3.BoolVal(False))]
         line = out[0][1][0]
@@ -129,7 +138,7 @@ class FilesLoop(LoopSpec):
         H = cx.H
         completed = H.find(root, cx.W.lit('mosromgrmeta')) != null
         clauses = [('C19.detect_line_names_the_file_and_the_class_the_library_assigns',
-                    A(z3.BoolVal(names_file and probe is not None), file_readable(fk.t), wellformed(file_text(fk.t)),
+                    A(z3.BoolVal(names_file and probe is not None), readable, wellformed(content),
                       class_clauses(cx.W, H, root, probe)[0][1] if probe is not None else z3.BoolVal(False))),
                    ('C19.completed_is_shown_exactly_for_a_completed_running_order',
                     z3.BoolVal(completed_txt) == A(z3.BoolVal(cname[:1] in (['RunningOrder'], ['RunningOrderReplace'])), completed))]
@@ -161,6 +170,19 @@ class DetectOrInspect(Contract):
             files.elemkind = 'str'
             ns = namespace(files=files, bucket_name=NONE, prefix=NONE, suffix=NONE, key=NONE, cmd=E.lit('inspect' if inspect else 'detect'))
             out.append((st, {'self': cli_obj(E, st, ns), 'inspect': SBool(inspect)}))
+        # (a') keys of a bucket: by prefix (with / without suffix) or a single key
+        for how in ('prefix', 'prefix+suffix'):      # the single-key form runs the same loop body over a one-element list
+            st = State(L.Heap(0, 0), z3.IntVal(0))
+            b = SStr(W.fresh('bucket', Str))
+            st.assume(L.s_truthy(b.t))
+            pfx = SStr(W.fresh('prefix', Str)) if how != 'key' else NONE
+            sfx = SStr(W.fresh('suffix', Str)) if how == 'prefix+suffix' else NONE
+            key = SStr(W.fresh('key', Str)) if how == 'key' else NONE
+            for v in (pfx, sfx, key):
+                if isinstance(v, SStr):
+                    st.assume(L.s_truthy(v.t))
+            ns = namespace(files=NONE, bucket_name=b, prefix=pfx, suffix=sfx, key=key, cmd=E.lit('detect'))
+            out.append((st, {'self': cli_obj(E, st, ns), 'inspect': SBool(how == 'prefix')}))
         # (b) nothing given -> usage error
         st = State(L.Heap(0, 0), z3.IntVal(0))
         ns = namespace(files=NONE, bucket_name=NONE, prefix=NONE, suffix=NONE, key=NONE, cmd=E.lit('detect'))
@@ -185,7 +207,12 @@ class DetectOrInspect(Contract):
         ns = cx.st.fields(cx.a['self'])['_args']
         files = ns.fields['files']
         if isinstance(files, SNone):
-            return []
+            if isinstance(ns.fields['bucket_name'], SNone):
+                return []
+            from .classify import s3_content
+            k = z3.Const('k!s3', Str)
+            c = s3_content(ns.fields['bucket_name'].t, k)
+            return [('classifiable_objects_hold_schema_shaped_messages', z3.ForAll([k], schema_shaped(parse_root(c)), patterns=[c]))]
         j = z3.Int('j!rq')
         el = files.elem(j).t
         return [('classifiable_files_hold_schema_shaped_messages',
@@ -194,10 +221,17 @@ class DetectOrInspect(Contract):
     def loop(self, ordinal):
         if ordinal == 0:
             return FilesLoop(self)
+        if ordinal == 1:
+            return FilesLoop(self, s3=True)
 
     def ensures(self, cx, ex):
         ns = cx.st.fields(cx.a['self'])['_args']
         v = ex.value
+        usage_error = isinstance(ns.fields['files'], SNone) and (isinstance(ns.fields['bucket_name'], SNone) or
+                                                                  (isinstance(ns.fields['prefix'], SNone) and isinstance(ns.fields['key'], SNone)))
+        if not usage_error and isinstance(ns.fields['files'], SNone):
+            lp = ex.loop(1)
+            return [('C19.every_listed_key_is_processed_in_order', z3.BoolVal(lp is not None and not getattr(lp, 'broke', False) and isinstance(v, SNone)))]
         if isinstance(ns.fields['files'], SNone):
             return [('C19.usage_error_gives_a_message_on_stderr_and_status_2',
                      A(z3.BoolVal(isinstance(v, SInt) and len(ex.st.err) >= 1), v.t == 2) if isinstance(v, SInt) else z3.BoolVal(False))]
